@@ -51,21 +51,6 @@ def tpState (s : Tp) : String :=
   if s.freed then s!"freed {th}"
   else s!"q={natsStr s.queue} qs={s.qsize} busy={s.busy} nt={s.threads.length} sd={b01 s.shutdown} {th}"
 
-def wEnabled : WPc → Bool
-  | .wait false => false | .exited => false | _ => true
-
-def cEnabled (exited : Nat → Bool) : CPc → Bool
-  | .idle => false | .enter _ => true | .blocked _ s => s | .joining k => exited k
-
-/-- enabled threads: workers by index, then clients by index -/
-def stwEnabled (s : Stw) : List Th :=
-  (if wEnabled s.w then [Th.worker 0] else []) ++
-  ((List.range s.clients.length).filter fun i => cEnabled (fun _ => s.w = .exited) (s.client i)).map Th.client
-
-def tpEnabled (s : Tp) : List Th :=
-  (((List.range s.ws.length).filter fun k => wEnabled (s.worker k)).map Th.worker) ++
-  ((List.range s.clients.length).filter fun i => cEnabled (fun k => s.worker (s.joinlist.getD k 0) = .exited) (s.client i)).map Th.client
-
 def thStr : Th → String
   | .worker k => s!"w{k}" | .client i => s!"c{i}"
 
@@ -86,7 +71,7 @@ def apply (st : St) (l : Label) (pre : String) : St × String :=
   | .tp s => let (s', ev) := s.step l; (.tp s', s!"{pre}{evsStr ev} | {tpState s'}")
 
 def enabledOf : St → List Th
-  | .none => [] | .stw s => stwEnabled s | .tp s => tpEnabled s
+  | .none => [] | .stw s => s.enabledList | .tp s => s.enabledList
 
 def stepEv (st : St) (l : Label) : St × List Ev :=
   match st with
@@ -164,7 +149,7 @@ def step (st : St) (ws : List String) : St × String :=
     | none => (st, "bad-op")
   | ["pick", n, sel] =>
     let en := match st with
-      | .none => [] | .stw s => stwEnabled s | .tp s => tpEnabled s
+      | .none => [] | .stw s => s.enabledList | .tp s => s.enabledList
     match st with
     | .none => (st, "no-executor")
     | _ =>
